@@ -928,3 +928,116 @@ Qed.
 
 
 End ClientProofs.
+
+(* ------------------------------------------------------------------------------------ *)
+(* getHelloConstant is injective in (cut id, port) *)
+
+Lemma dec_fuel_S : forall f n acc,
+  dec_fuel (S f) n acc =
+  if n / 10 =? 0 then (48 + n mod 10) :: acc else dec_fuel f (n / 10) ((48 + n mod 10) :: acc).
+Proof. reflexivity. Qed.
+
+Lemma dec_fuel_acc : forall f n acc, dec_fuel f n acc = dec_fuel f n [] ++ acc.
+Proof.
+  induction f as [|f IH]; intros n acc.
+  - reflexivity.
+  - rewrite !dec_fuel_S. destruct (n / 10 =? 0); [reflexivity|].
+    rewrite (IH (n / 10) (_ :: acc)), (IH (n / 10) [_]), <- app_assoc. reflexivity.
+Qed.
+
+Definition dval (l : list N) : N := fold_left (fun a d => 10 * a + (d - 48)) l 0.
+
+Lemma dval_snoc : forall l d, dval (l ++ [d]) = 10 * dval l + (d - 48).
+Proof. intros l d. unfold dval. rewrite fold_left_app. reflexivity. Qed.
+
+Lemma dval_dec_fuel : forall f n, (N.to_nat n < 2 ^ f)%nat -> dval (dec_fuel (S f) n []) = n.
+Proof.
+  induction f as [|f IH]; intros n Hn.
+  - cbn [Nat.pow] in Hn. assert (Hz : n = 0) by lia. subst n. reflexivity.
+  - rewrite dec_fuel_S.
+    pose proof (N.div_mod' n 10) as Hdm.
+    assert (Hlt : n mod 10 < 10) by (apply N.mod_lt; discriminate).
+    remember (n / 10) as q eqn:Eq. remember (n mod 10) as r eqn:Er. clear Eq Er.
+    destruct (q =? 0) eqn:E.
+    + apply N.eqb_eq in E. unfold dval. cbn [fold_left]. lia.
+    + apply N.eqb_neq in E. rewrite dec_fuel_acc, dval_snoc, IH; [lia|].
+      cbn [Nat.pow] in Hn. lia.
+Qed.
+
+Lemma pos_size_bound : forall p, (Pos.to_nat p < 2 ^ Pos.size_nat p)%nat.
+Proof.
+  induction p as [p IH|p IH|]; cbn [Pos.size_nat Nat.pow].
+  - rewrite Pos2Nat.inj_xI. lia.
+  - rewrite Pos2Nat.inj_xO. lia.
+  - cbn. lia.
+Qed.
+
+Lemma size_bound : forall n, (N.to_nat n < 2 ^ N.size_nat n)%nat.
+Proof.
+  intros [|p]; cbn [N.size_nat N.to_nat Nat.pow]; [lia|apply pos_size_bound].
+Qed.
+
+Lemma dval_dec_N : forall n, dval (dec_N n) = n.
+Proof. intros n. unfold dec_N. apply dval_dec_fuel. apply size_bound. Qed.
+
+Lemma dec_fuel_ge : forall f n acc,
+  Forall (fun d => 48 <= d) acc -> Forall (fun d => 48 <= d) (dec_fuel f n acc).
+Proof.
+  induction f as [|f IH]; intros n acc Hacc; [exact Hacc|].
+  rewrite dec_fuel_S.
+  assert (H : Forall (fun d => 48 <= d) ((48 + n mod 10) :: acc)) by (constructor; [apply N.le_add_r|exact Hacc]).
+  destruct (n / 10 =? 0); [exact H|apply IH; exact H].
+Qed.
+
+Lemma dec_N_ge : forall n, Forall (fun d => 48 <= d) (dec_N n).
+Proof. intros n. unfold dec_N. apply dec_fuel_ge. constructor. Qed.
+
+Lemma dec_N_inj : forall n m, dec_N n = dec_N m -> n = m.
+Proof. intros n m H. rewrite <- (dval_dec_N n), <- (dval_dec_N m), H. reflexivity. Qed.
+
+Lemma dec_N_not_minus : forall n l, dec_N n <> 45 :: l.
+Proof.
+  intros n l H. pose proof (dec_N_ge n) as Hge. rewrite H in Hge.
+  apply Forall_inv in Hge. lia.
+Qed.
+
+Lemma dec_Z_inj : forall z1 z2, dec_Z z1 = dec_Z z2 -> z1 = z2.
+Proof.
+  intros [|p1|p1] [|p2|p2] H; unfold dec_Z in H; cbn [Z.to_N] in H;
+    try reflexivity;
+    try (exfalso; exact (dec_N_not_minus _ _ H));
+    try (exfalso; symmetry in H; exact (dec_N_not_minus _ _ H));
+    try (apply dec_N_inj in H; first [discriminate H | injection H as ->; reflexivity]).
+  injection H as H. apply dec_N_inj in H. injection H as ->. reflexivity.
+Qed.
+
+Lemma digits_sep : forall u1 u2 d1 d2,
+  forallb is_digit u1 = true -> forallb is_digit u2 = true ->
+  u1 ++ 58 :: d1 = u2 ++ 58 :: d2 -> u1 = u2 /\ d1 = d2.
+Proof.
+  induction u1 as [|x u1 IH]; intros [|y u2] d1 d2 H1 H2 E; cbn [app forallb] in *.
+  - injection E as ->. split; reflexivity.
+  - injection E as <- _. apply andb_true_iff in H2. destruct H2 as [H2 _].
+    unfold is_digit in H2. apply andb_true_iff in H2. destruct H2 as [_ H2]. apply N.leb_le in H2. lia.
+  - injection E as -> _. apply andb_true_iff in H1. destruct H1 as [H1 _].
+    unfold is_digit in H1. apply andb_true_iff in H1. destruct H1 as [_ H1]. apply N.leb_le in H1. lia.
+  - injection E as -> E. apply andb_true_iff in H1. destruct H1 as [_ H1].
+    apply andb_true_iff in H2. destruct H2 as [_ H2].
+    destruct (IH u2 d1 d2 H1 H2 E) as [-> ->]. split; reflexivity.
+Qed.
+
+Lemma client_hello_eq : forall uid port,
+  client_hello uid port =
+  [58; 58; 84; 82; 90; 83; 90; 58; 58; 67; 76; 73; 69; 78; 84; 58; 58; 72; 69; 76; 76; 79; 58; 58]
+    ++ cut_uid uid ++ 58 :: (dec_Z port ++ []).
+Proof. reflexivity. Qed.
+
+Lemma hello_injective : forall uid1 uid2 port1 port2,
+  client_hello uid1 port1 = client_hello uid2 port2 ->
+  forallb is_digit (cut_uid uid1) = true -> forallb is_digit (cut_uid uid2) = true ->
+  cut_uid uid1 = cut_uid uid2 /\ port1 = port2.
+Proof.
+  intros uid1 uid2 port1 port2 E H1 H2. rewrite !client_hello_eq in E.
+  apply app_inv_head in E. apply digits_sep in E; [|exact H1|exact H2].
+  destruct E as [Eu Ed]. split; [exact Eu|]. rewrite !app_nil_r in Ed. apply dec_Z_inj. exact Ed.
+Qed.
